@@ -239,6 +239,23 @@ func runHist(c histCase) harness.Result {
 			return harness.Fail("step %d (%s %+v): result after the preceding reads is %s, but the same call on a freshly parsed copy of the response gives %s", i, a.Op, a, show(got), show(ref))
 		}
 		results[i] = got
+		if (a.Op == "extract" || a.Op == "extract-coils") && len(a.Fields) > 1 && got.err == "" {
+			// reading order independence inside one extraction: every field's value must equal the value obtained by extracting
+			// that field alone from a fresh copy (a read must not influence the reads that follow it)
+			for fi, f := range a.Fields {
+				solo, err := open(c)
+				if err != nil {
+					return harness.Fail("harness: %v", err)
+				}
+				one := solo.do(c, action{Op: a.Op, Fields: []modbus.Field{f}, Lenient: a.Lenient})
+				if one.err != "" || len(one.fields) != 1 || fi >= len(got.fields) {
+					return harness.Fail("step %d: field %d (%+v) extracted alone gives %s but together with the others the extraction succeeded", i, fi, f, show(one))
+				}
+				if !spec.SameValue(one.fields[0].Value, got.fields[fi].Value) {
+					return harness.Fail("step %d: field %d (%+v) reads %v when extracted together with the fields before it, but %v when extracted alone: a read influenced a later read", i, fi, f, got.fields[fi].Value, one.fields[0].Value)
+				}
+			}
+		}
 		if !bytes.Equal(dataOf(l.resp), pristineData) {
 			return harness.Fail("step %d (%s %+v) changed the response payload:\n  before %x\n  after  %x", i, a.Op, a, pristineData, dataOf(l.resp))
 		}
